@@ -20,7 +20,9 @@ CONFIG = dict(
           "selection of queries up to the tier's length bound (plus seeded random longer sequences with "
           "repetitions) is replayed on one object and on re-parsed copies and every answer compared with "
           "the baseline; the same corpus is answered again by fresh processes with PYTHONHASHSEED 1, 2 "
-          "and a seed-derived value and the digests are diffed by the parent.  A case is one distinct "
+          "and a seed-derived value and the digests are diffed by the parent; every case is also parsed from a "
+          "stream at an offset and as a later member of two stacks; and the vocabulary corpus is answered "
+          "forward and reversed in one process (order sensitivity).  A case is one distinct "
           "byte string; non-trivial = fickling decompiles it and it has >= 3 opcodes."),
     assumptions=[
         "an answer that is an exception is compared by exception type",
